@@ -35,6 +35,8 @@ impl DiagnosticSink {
 
     /// Push a new diagnostic into the sink.
     pub fn push<D: miette::Diagnostic + Into<miette::Error>>(&self, diagnostic: D) {
+        #[cfg(pavex_verif)]
+        rustdoc_processor::verif_sched::yield_point("diagnostic sink");
         self.diagnostics
             .lock()
             .expect("The lock around the diagnostic sink was poisoned")
@@ -54,6 +56,8 @@ impl DiagnosticSink {
     /// Returns `true` if at least one diagnostic with severity "ERROR" has been
     /// pushed into the sink.
     pub fn has_errored(&self) -> bool {
+        #[cfg(pavex_verif)]
+        rustdoc_processor::verif_sched::yield_point("diagnostic sink");
         self.diagnostics
             .lock()
             .expect("The lock around the diagnostic sink was poisoned")
@@ -66,6 +70,8 @@ impl DiagnosticSink {
 
     /// Check if the sink is empty.
     pub fn is_empty(&self) -> bool {
+        #[cfg(pavex_verif)]
+        rustdoc_processor::verif_sched::yield_point("diagnostic sink");
         self.diagnostics
             .lock()
             .expect("The lock around the diagnostic sink was poisoned")
@@ -74,6 +80,8 @@ impl DiagnosticSink {
 
     /// Get the number of diagnostics accumulated so far.
     pub fn len(&self) -> usize {
+        #[cfg(pavex_verif)]
+        rustdoc_processor::verif_sched::yield_point("diagnostic sink");
         self.diagnostics
             .lock()
             .expect("The lock around the diagnostic sink was poisoned")
